@@ -57,10 +57,20 @@ def body_of(bi, ac=False):
         return '\\frac{' + M(1) + '}{' + M(1) + '}', ['frac']
     if bi == 11:
         return M(1, ac) + '^{' + M(1) + '}_' + M(1), []
+    if bi == 12:
+        return 'x_{i\\in[' + M(1) + ',1)}' + M(1), ['in']
+    if bi == 13:
+        return '\\frac{\\cup[' + M(1) + '}{\\infty]' + M(1) + '}', ['frac', 'cup', 'infty']
+    if bi == 14:
+        return ('a' if ac else '') + '{\\notin(' + M(1) + ']}^{\\cap]' + M(1) + '}', ['notin', 'cap']
+    if bi == 15:
+        return 'a\\\\\\left[' + M(1, True) + '\\right)' + M(1, True), []
+    if bi == 16:
+        return M(1, ac) + '\\\\\\Big|' + M(1, True) + '\\\\ \\bigg]' + M(1, True), []
     raise AssertionError(bi)
 
 
-NBODIES = 12
+NBODIES = 17
 
 
 def find_math(soup, cls, name):
